@@ -390,6 +390,8 @@ def run(ctx):
       functions=[BaseWriter._relativize_and_fit_to_screen], contracts=WRITER_PARTS)
     P("webvtt.WebVTTWriter._convert_positioning/units", webvtt_never_absolute,
       functions=[WebVTTWriter._convert_positioning], contracts=WEBVTT_PARTS)
+    import props.C13_levels as LV
+    LV.prove_levels(ctx)
     ctx.bounded("writers", "layouts with one unit (5 units) x value grid x video sizes (both, none, one of two, square, "
                 "portrait) x attachment level x fit_to_screen x DFXP/SAMI/WebVTT writers: every written length is a "
                 "percentage with the exact two-decimal value, or the writer refuses; fit-to-screen edges",
